@@ -247,6 +247,34 @@ def c_platform_bounded():
     return dict(results=[res("ConstraintManager.request[<=3 requests x 8 request kinds]", "bounded", BOUNDED_OK if not bad else VIOLATED, 0, "exhaustive small-scope enumeration through the real functions", evaluations=evals, info=str(bad[:3]))],
                 functions=["litex.build.generic_platform.ConstraintManager.request/lookup_request (bounded)"], samples=[dict(bounded="ConstraintManager", evaluations=evals)])
 
+def c_platform_clients_bounded():
+    """request / request_all / request_remaining in every order (<= 3 calls out of 9 kinds): whatever a call RETURNS to its client, no platform signal
+    is handed to two clients ("platform IO resources ... are each granted to at most one client"), judged on the returned objects - not on the manager's books"""
+    from litex.build.generic_platform import ConstraintManager, Pins, Subsignal, ConstraintError
+    from migen.fhdl.tools import list_signals
+    from migen.genlib.record import Record
+    io = [("led", 0, Pins("A1")), ("led", 1, Pins("A2")), ("led", 2, Pins("A3")), ("uart", 0, Subsignal("tx", Pins("B1")), Subsignal("rx", Pins("B2"))), ("clk", 0, Pins("C1"))]
+    ops = [("request", "led", 0), ("request", "led", 1), ("request", "led", 2), ("request", "led", None), ("request_all", "led", None), ("request_remaining", "led", None),
+           ("request", "uart", None), ("request", "uart", 0), ("request_all", "clk", None)]
+    def leaves(o):
+        if isinstance(o, Record): return [x for x in o.flatten()]
+        return list(list_signals(o))
+    evals = 0; bad = []
+    for seq in itertools.product(range(len(ops)), repeat=3):
+        cm = ConstraintManager(list(io), []); owner = {}
+        for pos, k in enumerate(seq):
+            op, name, num = ops[k]; evals += 1
+            try: r = getattr(cm, op)(name, num) if op == "request" else getattr(cm, op)(name)
+            except (ConstraintError, ValueError): continue
+            for sg in leaves(r):
+                if id(sg) in owner and owner[id(sg)] != pos:
+                    bad.append(dict(sequence=[f"{ops[j][0]}({ops[j][1]!r}{'' if ops[j][2] is None else ', ' + str(ops[j][2])})" for j in seq], what=f"call #{pos} received a signal already handed to call #{owner[id(sg)]}")); break
+                owner[id(sg)] = pos
+        if len(bad) > 5: break
+    return dict(results=[res("ConstraintManager.request/request_all/request_remaining[<=3 calls x 9 kinds]: no signal handed to two clients", "bounded", BOUNDED_OK if not bad else VIOLATED, 0,
+                             "exhaustive small-scope enumeration through the real functions", evaluations=evals, witness=bad[:3], replayed=True)],
+                functions=["litex.build.generic_platform.ConstraintManager.request_all/request_remaining (bounded, judged on the returned signals)"], samples=[dict(bounded="ConstraintManager clients", evaluations=evals)])
+
 def c_decoders(tier):
     from contracts.C06_wishbone_ic import c_decoder_window
     out = []
@@ -339,7 +367,7 @@ def c_reserved_locations(kind, k):
 def cases(tier):
     return [Case("check_regions_overlap", c_overlap_contract), Case("add_region", c_add_region), Case("add_region(io_check)", c_add_region, True),
             Case("SoCLocHandler.add(fixed)", c_lochandler, 32, "fixed"), Case("SoCLocHandler.add(alloc)", c_lochandler, 8, "alloc"), Case("SoCLocHandler.add(reuse)", c_lochandler, 32, "reuse"),
-            Case("alloc_region(bounded)", c_alloc_bounded), Case("SoCRegion.size_pow2(bounded)", c_region_pow2), Case("ConstraintManager(bounded)", c_platform_bounded),
+            Case("alloc_region(bounded)", c_alloc_bounded), Case("SoCRegion.size_pow2(bounded)", c_region_pow2), Case("ConstraintManager(bounded)", c_platform_bounded), Case("ConstraintManager.clients(bounded)", c_platform_clients_bounded),
             Case("SoCRegion.decoder", c_decoders, tier), Case("SoCRegion.decoder.align", c_decoder_align, tier)] + \
            [Case(f"{kind}-handler.reserved({k})", c_reserved_locations, kind, k) for kind in ("irq", "csr") for k in (0, 1, 2)]
 
